@@ -219,5 +219,63 @@ theorem sameState_refl (s : State) : sameState s s = true := by
   simp [sameState, sameBank_refl, csrsEq, idxEq, AMap.eqv_refl]
 
 
+/-- a record under an id that did not exist before the receipt was created by a Register log of the Turnstile carrying that
+id, and its first contract is that log's -/
+theorem new_id_explained {env : Env} {ts : Addr} {s : State} (logs : List Log) (hI : RegInv s) (n : Nat) {r' : CSR}
+    (hr' : (processEvents env ts s logs).getCSR n = some r') (hnone : s.getCSR n = none) :
+    ∃ l ∈ logs, registersAs ts n r'.contracts.head? l = true := by
+  have key := processEvents_induct_mem (P := fun s' => RegInv s' ∧ ∀ r', s'.getCSR n = some r' →
+      (s.getCSR n).isSome ∨ ∃ l ∈ logs, registersAs ts n r'.contracts.head? l = true) env ts logs
+    (by
+      intro s1 l hl ⟨hI1, ih⟩
+      refine ⟨handleLog_regInv env ts s1 l hI1, ?_⟩
+      have hc := handleLog_cases env ts s1 l
+      generalize handleLog env ts s1 l = res at hc ⊢
+      cases hc with
+      | skip k => exact ih
+      | register c tid hem htop hpay hfree hid =>
+        intro r hr
+        rw [getCSR_setCSR] at hr
+        split at hr
+        · rename_i hn
+          injection hr with hr; subst hr
+          right
+          refine ⟨l, hl, ?_⟩
+          simp [registersAs, hem, htop, hpay, hn]
+        · exact ih r hr
+      | assign c tid r0 hem htop hpay hfree hid =>
+        obtain ⟨hrid, _⟩ := hI1.wf _ r0 hid
+        intro r hr
+        rw [getCSR_setCSR] at hr
+        split at hr
+        · rename_i hn
+          injection hr with hr; subst hr
+          have h0 : s1.getCSR n = some r0 := by rw [hn]; show s1.getCSR r0.id = _; rw [hrid]; exact hid
+          rcases ih r0 h0 with h1 | ⟨l0, hl0, hreg⟩
+          · exact Or.inl h1
+          · right
+            refine ⟨l0, hl0, ?_⟩
+            show registersAs ts n (r0.contracts ++ [c]).head? l0 = true
+            have hne : ∃ c0, r0.contracts.head? = some c0 := by
+              simp only [registersAs, Bool.and_eq_true] at hreg
+              obtain ⟨_, hm⟩ := hreg
+              split at hm
+              · rename_i c0 tid0 _
+                simp only [Bool.and_eq_true, beq_iff_eq] at hm
+                exact ⟨c0, hm.2⟩
+              · cases hm
+            obtain ⟨c0, hc0⟩ := hne
+            have : (r0.contracts ++ [c]).head? = r0.contracts.head? := by
+              cases hcs : r0.contracts with
+              | nil => rw [hcs] at hc0; cases hc0
+              | cons a as => rfl
+            rw [this]; exact hreg
+        · exact ih r hr)
+    s ⟨hI, fun r hr => Or.inl (by rw [hr]; rfl)⟩
+  rcases key.2 r' hr' with h | h
+  · rw [hnone] at h; cases h
+  · exact h
+
+
 end Csr
 end CV
